@@ -10,7 +10,7 @@ from __future__ import annotations
 
 from ..ref.escape import ATTR_MUST, valid_escape
 from ..ref.tokens import TokenError, tokenize
-from ..space import Const, Seq
+from ..space import Const, Prod, Seq
 from .c02 import CodePoints
 
 ID = "C03"
@@ -241,14 +241,18 @@ def _frames(which):
     return _CACHE[which]
 
 
-def check_probe(s, frames, viols, tokens=True):
+def check_probe(s, frames, viols, tokens=True, arg=None, keyprefix=""):
+    """s = the characters the value consists of; arg = the object actually supplied (default s)."""
     # history first: the very first time this process escapes s, it is as a TEXT child
     # (a result cache keyed on the string alone would now hold the text-escaped form)
     from htmltools import Tag
+    if arg is None:
+        arg = s
     if s != PH:
-        Tag("p", s, Tag("b")).get_html_string()
+        Tag("p", arg, Tag("b")).get_html_string()
     for name, (f, pre, suf, names) in frames.items():
-        out, _ = f(s)
+        name = keyprefix + name
+        out, _ = f(arg)
         if not (out.startswith(pre) and out.endswith(suf) and len(out) >= len(pre) + len(suf)):
             viols.append((f"way={name}:frame",
                           f"attribute value {s!r} changed the surrounding markup ({name})",
@@ -300,6 +304,41 @@ def fn_string(chars):
     viols = []
     check_probe(s, _frames("all"), viols, tokens=True)
     return (any(c in ATTR_MUST for c in s), None, viols)
+
+
+# ------------------------------------------------------------ str subclasses
+class LoudStr(str):
+    """a str subclass whose str()/format()/repr() are NOT its characters."""
+
+    def __str__(self):
+        return 'STR" data-injected="1'
+
+    def __format__(self, spec):
+        return 'FMT" data-injected="1'
+
+    def __repr__(self):
+        return "REPR"
+
+
+class TaggedStr(str):
+    """a harmless str subclass (extra attribute only)."""
+    origin = "user"
+
+
+def mk_enum_member(s):
+    import enum
+    return enum.Enum("Color", {"MEMBER": s}, type=str).MEMBER
+
+
+SUBCLASS_MAKERS = {"loud": LoudStr, "tagged": TaggedStr, "str-enum-mixin": mk_enum_member}
+
+
+def fn_subclass(case):
+    kind, chars = case
+    s = "".join(chars)
+    viols = []
+    check_probe(s, _frames("all"), viols, tokens=True, arg=SUBCLASS_MAKERS[kind](s), keyprefix=f"strsub={kind}:")
+    return (True, None, viols)
 
 
 SPECIALS = [["true"], ["none"], ["false"], ["num", 5], ["num", 2.5], ["num", 0], ["num", 0.0], ["num", -1],
@@ -356,6 +395,10 @@ def plan(tier):
         first,
         dict(kind="space", name="short-strings", space=Seq(Const(SIGMA), 0, k), fn=fn_string,
              execs=nways, note=f"all strings of length <= {k} over {SIGMA!r} x {nways} ways, tokenized"),
+        dict(kind="space", name="str-subclass-values", fn=fn_subclass,
+             space=Prod(Const(list(SUBCLASS_MAKERS)), Seq(Const(["r", "&", '"', "\n", " "]), 0, 2 if tier == "quick" else 3)),
+             note="attribute values that are instances of str subclasses (overridden __str__/__format__, a plain "
+                  "subclass, a (str, Enum) member): rendered as their characters, through every way"),
         dict(kind="space", name="specials", space=Const(SPECIALS), fn=fn_special,
              note="True -> empty value, None/False -> absent, numbers -> text"),
     ]
